@@ -1297,6 +1297,12 @@ func run(ctx *Ctx) *Result {
 			res.Sample(map[string]any{"family": c.Family, "ties": c.Ties, "files": c.Files, "stdout": o.distinct[0].Stdout, "stderr": o.distinct[0].Stderr})
 		}
 		// oracle
+		if c.Ties >= 2 && c.Ties <= 3 {
+			res.Count(fmt.Sprintf("tie%d-inputs:%s", c.Ties, c.Family))
+			if len(o.distinct) > 1 {
+				res.Count(fmt.Sprintf("tie%d-differing:%s", c.Ties, c.Family))
+			}
+		}
 		if len(o.distinct) > 1 {
 			var variants []string
 			for j, t := range o.distinct {
